@@ -140,20 +140,19 @@ theorem stepMT_of_lost (env : Env) (st : MTState) (q : MReq) (h : q.r.out = .req
     stepMT env st q = stepMTLost st q := by
   simp [stepMT, h]
 
-/-- a request the compiler server cannot read changes nothing there (only the client's
-    belief moves) and compiles nothing -/
+/-- a request the compiler server cannot read changes nothing (but the request counter)
+    and compiles nothing -/
 theorem stepMTLost_spec (st : MTState) (q : MReq) :
     (stepMTLost st q).1.cli = st.cli ∧ (stepMTLost st q).1.wk = st.wk ∧
     (stepMTLost st q).1.clock = st.clock + 1 ∧ (stepMTLost st q).2.used = none ∧
-    (stepMTLost st q).2.res = .unpickleErr := by
-  unfold stepMTLost
-  exact ⟨(ack1_fields _ _ _ _ _).1, (ack1_fields _ _ _ _ _).2.1, (ack1_fields _ _ _ _ _).2.2.1, rfl, rfl⟩
+    (stepMTLost st q).2.res = .syncFail ∧ (stepMTLost st q).1.bel = st.bel :=
+  ⟨rfl, rfl, rfl, rfl, rfl, rfl⟩
 
 theorem inv_step' (env : Env) (st : MTState) (q : MReq) (hI : Inv st) :
     Inv (stepMT env st q).1 := by
   by_cases hl : q.r.out = .requestUnreadable
   · rw [stepMT_of_lost env st q hl]
-    obtain ⟨hcli, hwk, hclk, _, _⟩ := stepMTLost_spec st q
+    obtain ⟨hcli, hwk, hclk, _, _, _⟩ := stepMTLost_spec st q
     exact ⟨by rw [hcli, hclk]; exact cliOK_mono hI.cli, by rw [hwk]; exact hI.invalNil,
       by rw [hcli, hwk, hclk]; exact fun w c v h => entryOK_mono (hI.entry w c v h),
       by rw [hcli, hwk]; exact hI.act⟩
@@ -367,7 +366,7 @@ theorem recordExact_step' (env : Env) (st : MTState) (q : MReq) (hI : Inv st)
     RecordExact (stepMT env st q).1 := by
   by_cases hl : q.r.out = .requestUnreadable
   · rw [stepMT_of_lost env st q hl]
-    obtain ⟨_, hwk, _, _, _⟩ := stepMTLost_spec st q
+    obtain ⟨_, hwk, _, _, _, _⟩ := stepMTLost_spec st q
     intro w c v hv; rw [hwk] at hv ⊢; exact hR w c v hv
   · rw [stepMT_of_read env st q hl]; exact recordExact_step env st q hI hR hout
 
@@ -381,30 +380,30 @@ theorem recordExact_exec (env : Env) (h : List MReq) :
       (fun q' hq' => hn q' (by simp [hq']))
 
 theorem agree1_exec (env : Env) (c : Nat) (h : List MReq) :
-    ∀ st, Agree1 st c → NoFailedSync env st h → NoLostRequestMT h → Agree1 (execMT env st h) c := by
+    ∀ st, Agree1 st c → NoFailedSync env st h → Agree1 (execMT env st h) c := by
   induction h with
-  | nil => intro st ha _ _; exact ha
+  | nil => intro st ha _; exact ha
   | cons q qs ih =>
-    intro st ha hn hr
-    have hq := hr q (by simp)
+    intro st ha hn
+    have hres := hn (stepMT env st q).2 (by simp [traceMT])
+    by_cases hq : q.r.out = .requestUnreadable
+    · exfalso
+      rw [stepMT_of_lost env st q hq] at hres
+      exact hres (stepMTLost_spec st q).2.2.2.2.1
     simp only [execMT]
-    have hres : (stepMTRun env st q).2.res ≠ .syncFail := by
-      have := hn (stepMT env st q).2 (by simp [traceMT])
-      rwa [stepMT_of_read env st q hq] at this
-    rw [stepMT_of_read env st q hq]
+    rw [stepMT_of_read env st q hq] at hres ⊢
     apply ih _ (agree1_step env st q c ha hres)
-    · intro o ho
-      apply hn o
-      simp only [traceMT, List.mem_cons]
-      right
-      rw [stepMT_of_read env st q hq]; exact ho
-    · intro q' hq'; exact hr q' (by simp [hq'])
+    intro o ho
+    apply hn o
+    simp only [traceMT, List.mem_cons]
+    right
+    rw [stepMT_of_read env st q hq]; exact ho
 
 theorem usedCurrent_step' (env : Env) (st : MTState) (q : MReq) (hI : Inv st) :
     (stepMT env st q).2.usedCurrent (stepMT env st q).1 q := by
   by_cases hl : q.r.out = .requestUnreadable
   · rw [stepMT_of_lost env st q hl]
-    obtain ⟨_, _, _, hu, _⟩ := stepMTLost_spec st q
+    obtain ⟨_, _, _, hu, _, _⟩ := stepMTLost_spec st q
     intro u hu'; rw [hu] at hu'; cases hu'
   · rw [stepMT_of_read env st q hl]; exact usedCurrent_step env st q hI
 
@@ -412,7 +411,7 @@ theorem usedSupplied_step' (env : Env) (st : MTState) (q : MReq) (hI : Inv st)
     (ha : Agree1 st q.c) : (stepMT env st q).2.usedSupplied q := by
   by_cases hl : q.r.out = .requestUnreadable
   · rw [stepMT_of_lost env st q hl]
-    obtain ⟨_, _, _, hu, _⟩ := stepMTLost_spec st q
+    obtain ⟨_, _, _, hu, _, _⟩ := stepMTLost_spec st q
     intro u hu'; rw [hu] at hu'; cases hu'
   · rw [stepMT_of_read env st q hl]; exact usedSupplied_step env st q hI ha
 
